@@ -69,6 +69,19 @@ def dump_domain(d):
     }
 
 
+def ngoal_text(g):
+    """PDDL text of a numeric goal (numbers rounded as the exporter prints them) followed by the exact
+    constants, so that goals differing beyond the printed digits stay different"""
+    consts = []
+    for node in g:
+        if node.is_leaf and not hasattr(node.value, "untyped_representation"):
+            try:
+                consts.append(float(node.value).hex())
+            except (TypeError, ValueError):
+                consts.append(str(node.value))
+    return ws(g.to_pddl()) + (" #" + ",".join(consts) if consts else "")
+
+
 def dump_problem(p):
     return {
         "name": p.name,
@@ -78,17 +91,17 @@ def dump_problem(p):
         "fluents": [[ws(k), "%s #%s" % (ws(v.state_representation), float(v.value).hex())]
                     for k, v in p.initial_state_fluents.items()],
         "goals": [ws(str(g)) for g in p.goal_state_predicates],
-        "ngoals": [ws(g.to_pddl()) for g in p.goal_state_fluents],
+        "ngoals": [ngoal_text(g) for g in p.goal_state_fluents],
     }
 
 
 def canon_domain(d):
-    return {"name": d["name"], "reqs": sorted(set(d["reqs"])),
-            **{s: sorted(map(tuple, d[s])) for s in ("types", "consts", "preds", "funcs", "acts")}}
+    # the sections the property names (name and requirements are not among them)
+    return {s: sorted(map(tuple, d[s])) for s in ("types", "consts", "preds", "funcs", "acts")}
 
 
 def canon_problem(p):
-    return {"name": p["name"], "objs": sorted(map(tuple, p["objs"])),
+    return {"objs": sorted(map(tuple, p["objs"])),
             "facts": sorted(f for _, fs in p["facts"] for f in fs),
             "fluents": sorted(map(tuple, p["fluents"])),
             "goals": sorted(p["goals"]), "ngoals": sorted(p["ngoals"])}
